@@ -2,6 +2,7 @@ import SsqlVerif.Props.C11
 #print axioms C11.lex_progress
 #print axioms C11.lex_terminates
 #print axioms C11.lex_total
+#print axioms C11.lex_token_is_slice
 #print axioms C11.lex_layout_insensitive
 #print axioms C11.lex_layout_pair
 #print axioms C11.lex_keyword_case_insensitive
